@@ -10,7 +10,7 @@ import svm
 
 PROPERTY = 'C05'
 RULE = ('Probe grid: fault kind {division, modulo (also compound /= %=), index out of range, bad dynamic length, return from a '
-        'preemptive defeat function into unavoidable defeat} x element type {int, byte, bool, string element, string} x storage '
+        'preemptive defeat function into unavoidable defeat; division/modulo by a compile-time constant that is zero only after wrapping to the word size} x element type {int, byte, bool, string element, string} x storage '
         '{local literal, local dynamic array, mutable global, const global, parameter bound to const-section / state-constant / '
         'mutable storage, argv array, argv string} x access form {read, write, compound + - * / %, read in condition, in an '
         'argument list} x form of the index / length expression {parameter, computed, global, array element, narrowed to byte} x operand from argv over a boundary grid (index -1, 0, len-1, len, len+1, MAX, MIN, -len; divisor 0, '
@@ -205,6 +205,31 @@ def division_probes():
     return out
 
 
+def constant_divisor_probes():
+    """The divisor is a compile-time constant that is zero *on the machine* at some word sizes (a non-zero multiple of
+    2^16 / 2^24 / 2^32, written as a literal or folded from small literals); the dividend comes from argv."""
+    out = []
+    consts = [('65536', ''), ('131072', ''), ('(-65536)', ''), ('16777216', ''), ('4294967296', ''), ('(K * K)', 'const int K = 256;'),
+              ('(K * K)', 'const int K = 4096;'), ('(K * K * K * K)', 'const int K = 256;'), ('65537', ''), ('(K * K + 1)', 'const int K = 256;'),
+              ('256', ''), ('(K - K + 3)', 'const int K = 256;')]
+    for op in ('/', '%'):
+        for ci, (c, cdecl) in enumerate(consts):
+            for pos in ('value', 'compound_local', 'compound_elem', 'cond'):
+                glob = GLOBAL_CANARY + cdecl + '\n'
+                body = 'int x = d; int[] arr3 = [100, d, 25];'
+                if pos == 'value':
+                    stmt = 'write(x %s %s);' % (op, c)
+                elif pos == 'cond':
+                    stmt = "if ((x %s %s) > 1) { write('>'); } else { write('<'); }" % (op, c)
+                elif pos == 'compound_local':
+                    stmt = 'x %s= %s; write(x);' % (op, c)
+                else:
+                    stmt = 'arr3[1] %s= %s; write(arr3[1]);' % (op, c)
+                src = '%s\nempty @is_you(int d) {\n  %s\n  %s\n  write(\'B\');\n  %s\n  %s\n}\n' % (glob, CANARY_DECL, body, stmt, CANARY_SHOW)
+                out.append(('cdiv:%s:%d:%s' % (op, ci, pos), src, lambda d: [d]))
+    return out
+
+
 def length_probes():
     out = []
     for el in ('int', 'byte', 'bool', 'string'):
@@ -261,10 +286,14 @@ def grid(kind, ws):
     lo = -hi - 1
     if kind.startswith(('index', 'strindex')):
         return [-1, 0, 1, L - 1, L, L + 1, hi, lo, -L, 255, 256, hi - 1, lo + 1, 256 + L - 1, 256 + L, -256, -254]
+    if kind.startswith('cdiv'):
+        return [0, 1, -1, 100, hi, lo]
     if kind.startswith('div'):
         return [0, 1, -1, 2, hi, lo, 256, 255, -256]
     if kind.startswith('length'):
-        return [-9, -8, -7, -2, -1, 0, 1, 7, 8, 9, hi, lo, hi // ws, hi // ws + 1, lo + 1, 20000, 256, 257, 263, -256, -250, 511]
+        full = (1 << (8 * ws)) // ws        # smallest length whose size in bytes wraps all the way round (only representable for ws >= 3)
+        return [-9, -8, -7, -2, -1, 0, 1, 7, 8, 9, hi, lo, hi // ws, hi // ws + 1, lo + 1, 20000, 256, 257, 263, -256, -250, 511] + \
+            [v for v in (full, full + 1, full + 2, full + 40, full + 400, 2 * full // 2 + 7, (1 << (8 * ws)) // 8 + 1, (1 << (8 * ws)) // 8 * 3 + 2) if v <= hi]
     return [0, 1]
 
 
@@ -336,7 +365,7 @@ ALL = None
 def all_probes():
     global ALL
     if ALL is None:
-        ALL = index_probes() + division_probes() + length_probes() + preempt_probes()
+        ALL = index_probes() + division_probes() + constant_divisor_probes() + length_probes() + preempt_probes()
     return ALL
 
 
